@@ -112,6 +112,9 @@ def run(ctx):
         p = os.path.join(ctx.work, "crafted_c27_%d.tl" % ci)
         open(p, "w").write(schemagen.PRELUDE + txt)
         jobs.append(("crafted:%d" % ci, [p], wl))
+    only = os.environ.get("VERIF_C27_JOBS")  # debugging aid: run the named jobs only
+    if only:
+        jobs = [j for j in jobs if j[0] in only.split(",")]
     for name, files, wl in jobs:
         one(ctx, name, files, wl, thorough, tot, c)
     ctx.count(tot.get("checked", 0))
